@@ -4,6 +4,7 @@ C02  timegm: calendar -> Unix time is the exact monotone inverse; bad dates refu
 import TzVerif.Model.DateTime
 import TzVerif.Spec.Calendar
 import TzVerif.Proofs.Calendar
+import TzVerif.Proofs.SrcEqCal
 
 namespace TzVerif.C02
 open TzVerif.Model TzVerif.Gen
@@ -75,5 +76,28 @@ theorem monotone (y m d h mi s y' m' d' h' mi' s' : Int)
 /-- non-vacuity: a leap day is accepted, 30 February is refused with the day error -/
 example : (UtcDateTime.new 2024 2 29 23 59 60 0).isOk = true ∧
     UtcDateTime.new 2023 2 29 0 0 0 0 = .error (.dateTime .invalidMonthDay) := by decide
+
+/-! ### The same about the source text
+`TzVerif.Src.*` is the Rust source translated to Lean on every run (tools/rs2lean.py, DESIGN §13); the
+equalities below tie every theorem of this file, which is about the model, to the code as it is now. -/
+
+theorem translated_source_is_the_model :
+    (∀ y mo d h mi s ns, Src.UtcDateTime.new y mo d h mi s ns = UtcDateTime.new y mo d h mi s ns) ∧
+    (∀ y mo d h mi s ns, Src.check_date_time_inputs y mo d h mi s ns = checkDateTimeInputs y mo d h mi s ns) ∧
+    (∀ y m d, Src.days_since_unix_epoch y m d = daysSinceUnixEpoch y m d) ∧
+    (∀ y mo d h mi s, Src.unix_time y mo d h mi s = unixTime y mo d h mi s) ∧
+    (∀ c : UtcDateTime, Src.UtcDateTime.unix_time c = c.unixTime) ∧
+    (∀ t ns, Src.UtcDateTime.from_timespec t ns = UtcDateTime.fromTimespec t ns) :=
+  ⟨Proofs.SrcEq.utc_new_eq, Proofs.SrcEq.check_date_time_inputs_eq, Proofs.SrcEq.days_since_unix_epoch_eq,
+   Proofs.SrcEq.unix_time_eq, Proofs.SrcEq.utc_unix_time_eq, Proofs.SrcEq.utc_from_timespec_eq⟩
+
+theorem days_correct_src (y m d : Int) (hm : 1 ≤ m ∧ m ≤ 12) : Src.days_since_unix_epoch y m d = Spec.dayNumber y m d := by
+  rw [Proofs.SrcEq.days_since_unix_epoch_eq]; exact days_correct y m d hm
+
+theorem new_correct_src (y mo d h mi s ns : Int) : Src.UtcDateTime.new y mo d h mi s ns = expected y mo d h mi s ns := by
+  rw [Proofs.SrcEq.utc_new_eq]; exact new_correct y mo d h mi s ns
+
+theorem unix_time_correct_src (y m d h mi s : Int) (hm : 1 ≤ m ∧ m ≤ 12) : Src.unix_time y m d h mi s = Spec.seconds y m d h mi s := by
+  rw [Proofs.SrcEq.unix_time_eq]; exact unix_time_correct y m d h mi s hm
 
 end TzVerif.C02
